@@ -21,6 +21,8 @@ var atomicFamilies = []struct{ prefix, intrinsic string }{
 func checkC11(c *Ctx) (string, error) {
 	c.Rule("R11.1", "semaphore/notify state is accessed only under its mutex; Lock/Unlock paired; cond.Wait under lock and in a re-testing loop", 10)
 	c.Rule("R11.2", "ticket discipline: a per-waiter wait predicate over an advancing counter is an ordering test, and waiters with per-waiter predicates are woken by Broadcast", 3)
+	c.Rule("R11.6", "a waker publishes the state its waiters poll before it signals them (the atomic update dominates Signal/Broadcast)", 3)
+	c.Rule("R11.7", "every atomic.Value method that reads the type word excludes the first-store-in-progress sentinel before interpreting it", 4)
 	c.Rule("R11.3", "atomic intrinsics: operation codes equal LLVM's atomicrmw opcodes; every sync/atomic entry point is bound to the intrinsic of its meaning", 40)
 	c.Rule("R11.4", "every atomic instruction is emitted sequentially consistent", 5)
 	c.Rule("R11.5", "go statement: argument record is heap allocated and packed/unpacked with the same layout predicate", 5)
@@ -36,6 +38,8 @@ func checkC11(c *Ctx) (string, error) {
 		}
 		c.use(rw)
 		c.Config = lc.String()
+		checkPublishBeforeWake(c, rw.RT("internal/lib/runtime"))
+		checkValueSentinel(c, rw.RT("internal/lib/sync/atomic"))
 		checkSemaLocks(c, rw.RT("internal/lib/runtime"))
 		checkTicketDiscipline(c, rw.RT("internal/lib/runtime"))
 		c.Config = ""
@@ -171,6 +175,77 @@ func checkSemaLocks(c *Ctx, rp *packages.Package) {
 	}
 	if n < 6 {
 		c.Undecided("R11.1", "sema_llgo.go locking functions", 0, fmt.Sprintf("%d functions with mutex operations found, expected >= 6", n))
+	}
+}
+
+// checkPublishBeforeWake: R11.6
+func checkPublishBeforeWake(c *Ctx, rp *packages.Package) {
+	info := rp.TypesInfo
+	for _, fd := range allFuncs(rp) {
+		if fileOf(c.fset, fd.Pos()) != "sema_llgo.go" {
+			continue
+		}
+		g := buildCFG(rp, fd)
+		k := 0
+		for _, call := range callsIn(fd.Body) {
+			f := calleeOf(info, call)
+			if f == nil {
+				continue
+			}
+			sn := shortName(f)
+			if !strings.HasSuffix(sn, "sync.Cond.Signal") && !strings.HasSuffix(sn, "sync.Cond.Broadcast") {
+				continue
+			}
+			k++
+			isPublish := func(n ast.Node) bool {
+				for _, cc := range callsIn(n) {
+					if ff := calleeOf(info, cc); ff != nil && ff.Pkg() != nil && strings.HasSuffix(ff.Pkg().Path(), "sync/atomic") {
+						if strings.HasPrefix(ff.Name(), "Add") || strings.HasPrefix(ff.Name(), "Store") || strings.HasPrefix(ff.Name(), "Swap") {
+							return true
+						}
+					}
+				}
+				return false
+			}
+			dom, found := g.dominatedBy(call, isPublish, nil)
+			c.Check(found && dom, "R11.6", fmt.Sprintf("libruntime.%s wake#%d after publish", declName(fd), k), call.Pos(), "atomic update of the polled word dominates the wake-up",
+				"waiters are signalled on a path where the word they poll has not been updated yet: the woken thread re-reads the old value and sleeps again, and the update that follows wakes nobody")
+		}
+	}
+}
+
+// checkValueSentinel: R11.7
+func checkValueSentinel(c *Ctx, ap *packages.Package) {
+	info := ap.TypesInfo
+	n := 0
+	for _, fd := range allFuncs(ap) {
+		if fd.Recv == nil || recvBase(fd.Recv.List[0].Type) != "Value" {
+			continue
+		}
+		// reads the type word?
+		reads := false
+		for _, call := range callsIn(fd.Body) {
+			if f := calleeOf(info, call); f != nil && f.Name() == "LoadPointer" && len(call.Args) == 1 && strings.HasSuffix(strings.ReplaceAll(exprStr(call.Args[0]), " ", ""), ".typ") {
+				reads = true
+			}
+		}
+		if !reads {
+			continue
+		}
+		n++
+		excl := false
+		ast.Inspect(fd.Body, func(x ast.Node) bool {
+			be, ok := x.(*ast.BinaryExpr)
+			if ok && be.Op == token.EQL && strings.Contains(strings.ReplaceAll(exprStr(be.Y), " ", ""), "&firstStoreInProgress") {
+				excl = true
+			}
+			return true
+		})
+		c.Check(excl, "R11.7", "sync/atomic.Value."+fd.Name.Name+" excludes the in-progress sentinel", fd.Pos(), "typ == &firstStoreInProgress handled before the type is interpreted",
+			"the method interprets the type word without excluding the first-store sentinel: racing the very first Store it sees a bogus type (spurious 'inconsistently typed value' panic or garbage load)")
+	}
+	if n < 4 {
+		c.Undecided("R11.7", "sync/atomic.Value readers", 0, fmt.Sprintf("%d methods reading the type word found, expected 4", n))
 	}
 }
 
@@ -611,6 +686,7 @@ func funcText(fd *ast.FuncDecl) string {
 
 func init() {
 	s := "runtime/internal/lib/runtime/sema_llgo.go"
+	addMutant(Mutant{Prop: "C11", Name: "release-publishes-late", File: s, Old: "func semaRelease(addr *uint32) {\n\tlatomic.AddUint32(addr, 1)\n\tst := getSemaState(addr)\n\tst.mu.Lock()\n\tif st.waiters != 0 {\n\t\tst.cond.Signal()\n\t}\n\tst.mu.Unlock()\n", New: "func semaRelease(addr *uint32) {\n\tst := getSemaState(addr)\n\tst.mu.Lock()\n\tif st.waiters != 0 {\n\t\tst.cond.Signal()\n\t}\n\tst.mu.Unlock()\n\tlatomic.AddUint32(addr, 1)\n", Expect: "R11.6 libruntime.semaRelease"})
 	addMutant(Mutant{Prop: "C11", Name: "waiters-unlocked", File: s, Old: "\tst.mu.Lock()\n\tif st.waiters != 0 {\n\t\tst.cond.Signal()\n\t}\n\tst.mu.Unlock()\n", New: "\tif st.waiters != 0 {\n\t\tst.cond.Signal()\n\t}\n", Expect: "R11.1 libruntime.semaRelease"})
 	addMutant(Mutant{Prop: "C11", Name: "sema-return-locked", File: s, Old: "\t\t\tif v != 0 && latomic.CompareAndSwapUint32(addr, v, v-1) {\n\t\t\t\tst.mu.Unlock()\n\t\t\t\treturn\n\t\t\t}", New: "\t\t\tif v != 0 && latomic.CompareAndSwapUint32(addr, v, v-1) {\n\t\t\t\treturn\n\t\t\t}", Expect: "R11.1 libruntime.semaAcquire lock pairing"})
 	addMutant(Mutant{Prop: "C11", Name: "ticket-equality", File: s, Old: "for !notifyLess(t, latomic.LoadUint32(&l.notify)) {", New: "for latomic.LoadUint32(&l.notify) == t {", Expect: "R11.2 libruntime.sync_runtime_notifyListWait ticket comparison"})
